@@ -3,7 +3,7 @@
            write-only variable.
    Part 2: READ / WRITE are refused with ERROR when the command offers nothing readable / writable.
    Part 3: over every history the storage of a read-only slot is never modified by the library.
-   All the work for Properties_C08.v is here. *)
+   (Part 4, write-only non-interference over histories, is in Lemmas_C08b.v.) *)
 From Coq Require Import List NArith ZArith Bool Arith Lia.
 From CatV Require Import Bytes Defs Codec Spec Fsm CollectDefs Lemmas_C04 Lemmas_C05.
 Import ListNotations.
